@@ -115,6 +115,21 @@ Theorem c16_recver : NoLostWakeup recver_proto rv_cond.
 Proof. exact p_c16_recver. Qed.
 Theorem c16_recver_observes : Observes recver_proto rv_cond.
 Proof. exact p_c16_recver_observes. Qed.
+(*       one frame may be lost and retransmitted: with the FIN behind the hole SizeKnown is a resting state in
+         which the reader parks (reachable witness) ... *)
+Theorem c16_recver_sizeknown_rests :
+  exists s, run (lift recver_proto) (linit recver_proto)
+              [@LOp recver_proto (RvLose 2); @LOp recver_proto (RvFin 2); @LPoll recver_proto 0 tt] = Some s /\
+            rv_st (fst s) = RvSizeKnown /\ rv_w (fst s) = Some 0 /\ t_sleep (snd s 0) = true /\ t_pend (snd s 0) = false.
+Proof. exact p_c16_recver_sizeknown_rests. Qed.
+(*       ... and whatever ends the wait there or in Recv -- RESET_STREAM, the connection error, the retransmission --
+         invokes the parked reader's Waker in the same lock-protected call *)
+Theorem c16_recver_end_wakes : forall o op o' wk r w,
+  oper recver_proto o op = Some (o', wk, r) ->
+  rv_live (rv_st o) = true -> rv_w o = Some w ->
+  op = RvReset \/ op = RvConnError \/ op = RvRetx ->
+  In w wk /\ rv_w o' = None.
+Proof. exact p_c16_recver_end_wakes. Qed.
 
 (* ---- 11. crypto stream, sending side (qrecovery/src/crypto.rs) -- the code as it is: finding F24 *)
 Theorem c16_crypto_flush_refuted :
@@ -166,6 +181,17 @@ Theorem c16_sendbuffer_fixed_quiescent : forall s, reach sendbuffer_fixed_sys s 
   sb_nw s = 0 -> t_sleep (sb_t s) = true -> sb_cond s -> t_pend (sb_t s) = true.
 Proof. exact p_c16_sendbuffer_fixed_quiescent. Qed.
 
+(* ---- 17. Wakers::combine_with (qbase/src/util/wakers.rs) over an event source, m waiters: the calling task is in
+            the set BEFORE the inner poll gets the combined waker; the notifier (a datagram, a spurious event, poll_close)
+            may run at any lock-protected step, including between the inner poll's registration and its return *)
+Theorem c16_combine : NoLostWakeup combine_proto cb_cond.
+Proof. exact p_c16_combine. Qed.
+Theorem c16_combine_observes : Observes combine_proto cb_cond_obs.
+Proof. exact p_c16_combine_observes. Qed.
+Theorem c16_combine_inner_wake : forall o w a o' wk,
+  poll combine_proto o w a = Some (o', wk, Pending) -> a <> CbPlain -> In w wk.
+Proof. exact p_c16_combine_inner_wake. Qed.
+
 (* non-vacuity: sleeping states with a pending wake are reachable in the sound protocols *)
 Example c16_nonvacuous :
   (exists s, run (lift asyncdeque_proto) (linit _) [@LPoll asyncdeque_proto 0 tt; @LOp asyncdeque_proto (AdPushBack 5)] = Some s /\
@@ -208,6 +234,8 @@ Print Assumptions c16_sender.
 Print Assumptions c16_sender_observes.
 Print Assumptions c16_recver.
 Print Assumptions c16_recver_observes.
+Print Assumptions c16_recver_sizeknown_rests.
+Print Assumptions c16_recver_end_wakes.
 Print Assumptions c16_crypto_flush_refuted.
 Print Assumptions c16_crypto_flush_cond.
 Print Assumptions c16_crypto_flush_fixed.
@@ -221,4 +249,7 @@ Print Assumptions c16_aa_quiescent.
 Print Assumptions c16_sendbuffer_refuted.
 Print Assumptions c16_sendbuffer_fixed.
 Print Assumptions c16_sendbuffer_fixed_quiescent.
+Print Assumptions c16_combine.
+Print Assumptions c16_combine_observes.
+Print Assumptions c16_combine_inner_wake.
 Print Assumptions c16_nonvacuous.
